@@ -1116,8 +1116,13 @@ def prop_from_dict(case, ctx):
     # list for the documented JSON-shaped literal), so `Instruction.__eq__` with the directly
     # built instruction (tuple modes) is False.  tests/api/program/test_parsing.py pins
     # `.modes == [0, 1]`, i.e. upstream treats the list as intended: counted only.
-    if any(not (a == b) for a, b in zip(direct.instructions, got.instructions)):
-        ctx.count("dict_eq_false_because_modes_is_a_list")
+    try:
+        if any(not (a == b) for a, b in zip(direct.instructions, got.instructions)):
+            ctx.count("dict_eq_false_because_modes_is_a_list")
+    except ValueError:
+        # Instruction.__eq__ compares the params dicts with ==, which raises for array
+        # parameters once the modes agree (second observation, not part of C18)
+        ctx.count("dict_eq_raises_on_array_params")
 
 
 # ============================================================================ (d) copy
